@@ -30,7 +30,10 @@ pub fn replay_saved(ctx: &mut Ctx, engine: &str, eval: &dyn Fn(&Case) -> Outcome
                 if e != engine {
                     continue;
                 }
-                let out = eval(&case);
+                let out = {
+                    let _running = crate::driver::watchdog::enter(127, &case);
+                    eval(&case)
+                };
                 ctx.record_direct(&format!("{}-replay", engine), &case, out);
             }
             Err(e) => eprintln!("skipping replay file: {}", e),
